@@ -76,6 +76,7 @@ TRANSLATORS = {
     "CertGen.v": ("tr/cert.py", ["varlink-certification/src/main.rs"]),
     "ProxyGen.v": ("tr/proxy.py", ["varlink-cli/src/proxy.rs"]),
     "WorkerGen.v": ("tr/worker.py", ["varlink/src/server.rs"]),
+    "ShapeGen.v": ("tr/shapes.py", [""]),
 }
 
 
